@@ -144,6 +144,51 @@ def snapshot_log(rng, sid, length, stale):
     s.raw("G", ["digest"])
     return s
 
+def entry_line(rng, s, db=None):
+    """one committed entry (never a clock advance): command / delete-key / flush"""
+    r = rng.random()
+    db = rng.choice(DBS) if db is None else db
+    if r < 0.05:
+        s.raw("K %d %s" % (db, hx(rng.choice(gen_mixed.KEYS))), ["deletekey", db])
+    elif r < 0.2:
+        L(s, db, [rng.choice(["FLUSHDB", "FLUSHALL", "FLUSHALL"])])
+    else:
+        L(s, db, make_det(rng, gen_mixed.rand_cmd(rng, inplace_ok=True)))
+
+def batched_log(rng, sid, length):
+    """the log is delivered in raft batches (node 0 entry by entry, the others through ApplyBatch when the state machine
+    has one): log order must be kept whatever the databases of the entries"""
+    s = new_script(sid, "batch")
+    for _ in range(rng.randint(2, length)):
+        k = rng.randint(2, 9)
+        s.raw("BL %d" % k, ["batch", k])
+        for _ in range(k):
+            entry_line(rng, s)
+        if rng.random() < 0.3: s.raw("G", ["digest"])
+    s.raw("G", ["digest"])
+    return s
+
+VALUE_DEPENDENT = [["INCR", "n"], ["APPEND", "t", "ab"], ["RPUSH", "q", "x"], ["LPOP", "q"], ["DECR", "n"], ["INCRBY", "n", "5"],
+                   ["SADD", "s", "m"], ["HINCRBY", "h", "f", "2"], ["ZINCRBY", "z", "1", "m"], ["SET", "fresh", "1"], ["DEL", "t"]]
+
+def two_step_snapshot(rng, sid):
+    """raft's sequence: FSM.Snapshot() after some entries, further entries applied, then Persist; a fresh node restores the
+    snapshot and replays the entries after the snapshot's index: all nodes must agree"""
+    s = new_script(sid, "snap2")
+    db = rng.choice(DBS)
+    for _ in range(rng.randint(1, 6)):
+        L(s, db, rng.choice(VALUE_DEPENDENT))
+    s.raw("ZB 0", ["snapshot-begin", 0])
+    suffix = [rng.choice(VALUE_DEPENDENT) for _ in range(rng.randint(1, 6))]
+    for argv in suffix:
+        L(s, db, argv)
+    s.raw("ZP %d" % WALL, ["snapshot-persist"])
+    s.raw("F 2", ["fresh", 2]); s.raw("V 2 %d" % WALL, ["restore", 2])
+    for argv in suffix:
+        s.raw("LO 2 %d %s" % (db, " ".join(hx(a) for a in argv)), ["replay", 2, db] + argv)
+    s.raw("G", ["digest"])
+    return s
+
 SYNC_WORDS = None
 def sync_words():
     global SYNC_WORDS
@@ -233,20 +278,20 @@ def oracle07(script, impl_lines):
             for m in re.finditer(r" db(-?\d+)\{[0-9a-f]", l):
                 if int(m.group(1)) not in used:
                     return "database %s holds keys although no entry of the log names it: %s" % (m.group(1), l)
-    if kind in ("det", "nondet"):
+    if kind in ("det", "nondet", "batch"):
         for b in blocks(impl_lines, "R"):
             if len(set(b)) > 1:
                 # unordered replies may legitimately be printed in different orders
                 t = [repr(norm_tree(parse_reply(x), parse_reply(x), unordered=True)[0]) for x in b]
                 if len(set(t)) > 1: return "the same entry was answered differently on different nodes: %s" % b
-    if kind in ("det", "nondet", "snap"):
+    if kind in ("det", "nondet", "snap", "batch", "snap2"):
         gs = blocks(impl_lines, "G")
-        with_vol = kind != "snap"
+        with_vol = kind not in ("snap", "snap2")
         if gs:
             last = [norm_g("G " + g, with_vol) for g in gs[-1]]
             if len(set(last)) > 1:
                 return "nodes hold different datasets after the same log: %s" % gs[-1]
-        if kind != "snap":
+        if kind not in ("snap", "snap2"):
             for g in gs:
                 if len(set(norm_g("G " + x, True) for x in g)) > 1:
                     return "nodes hold different datasets after the same log prefix: %s" % g
@@ -298,6 +343,8 @@ class C07(PropertyCheck):
             "nondet_logs": [nondet_log(rng, "n%d" % i, 20) for i in range(60 if q else 400)],
             "snapshot_then_suffix": [snapshot_log(rng, "s%d" % i, 24, False) for i in range(60 if q else 500)],
             "stale_snapshot": [snapshot_log(rng, "t%d" % i, 20, True) for i in range(30 if q else 200)],
+            "batched": [batched_log(rng, "b%d" % i, 6) for i in range(60 if q else 600)],
+            "two_step_snapshot": [two_step_snapshot(rng, "z%d" % i) for i in range(40 if q else 400)],
             "handle_command": [handle_log(rng, "h%d" % i, 10) for i in range(80 if q else 600)],
         }
         return out
